@@ -69,39 +69,30 @@ def _min_leaves(nf, atom):
     return None
 
 
-def _cem_sample(ck, repo, nf, CS):
-    """candidates = Z * sqrt(V) + mean with |Z| <= T and V <= (c*(mean-lb))^2, (c*(ub-mean))^2, T*c <= 1  =>  lb <= candidates <= ub;
-    or an outermost clip(., lb, ub)."""
-    fn = repo.func(CS)
-    mi = fn._module
-    env = _env(fn)
+def _cem_parts(nf, CS, env):
+    """('clip', args) | ('affine', T, leaves, squared) | raises AnalysisError.  leaves: Polys whose minimum is the std (squared=False) or the variance (squared=True)."""
     got = nf.return_poly(CS, env)
-    where = loc(mi, fn)
     sa = got.single_atom()
     if sa and nf.meta.get(sa, {}).get("fn") == "clip":
-        args = [x.canon() for x in nf.meta[sa].get("args", [])[1:]]
-        ok = args in (["lb", "ub"], ["lb[jnp.newaxis]", "ub[jnp.newaxis]"], ["lb[numpy.newaxis]", "ub[numpy.newaxis]"])
-        ck.ob("R4-cem-proposal", CS, "bounded", ok, f"return {sa[:120]}", "" if ok else "candidates are clipped to something else than [lb, ub]", where)
-        return
-    # affine form  Z*S + M
+        return ("clip", [x.canon() for x in nf.meta[sa].get("args", [])[1:]], sa)
     mean_b = [a for a in got.atoms() if a.startswith("mean[")]
     if len(got.terms) != 2 or len(mean_b) != 1:
         raise AnalysisError(f"{CS}: candidates `{got.canon()[:140]}` are neither clip(., lb, ub) nor noise*std + mean (unrecognised idiom)")
     noise_term = [(m_, c_) for m_, c_ in got.terms.items() if not any(a == mean_b[0] for a, _ in m_)]
-    ck.need(len(noise_term) == 1 and noise_term[0][1] == 1 and len(noise_term[0][0]) == 2, f"{CS}: perturbation term of `{got.canon()[:140]}` not recognised")
+    if not (len(noise_term) == 1 and noise_term[0][1] == 1 and len(noise_term[0][0]) == 2):
+        # the std may have collapsed to 0 under a substitution: then only the mean term is left
+        raise AnalysisError(f"{CS}: perturbation term of `{got.canon()[:140]}` not recognised")
     atoms = [a for a, e in noise_term[0][0]]
     z = next((a for a in atoms if "truncated_normal(" in a), None)
     sd = next((a for a in atoms if a != z), None)
     if z is None:
-        ck.ob("R4-cem-proposal", CS, "bounded", False, f"return {got.canon()[:140]}", "the perturbation is not drawn from a truncated distribution: candidates are unbounded", where)
-        return
+        return ("untruncated", got.canon())
     zm = nf.meta.get(z, {})
     try:
         lo, hi = float(zm["args"][1].const_value()), float(zm["args"][2].const_value())
     except Exception:
         raise AnalysisError(f"{CS}: truncation bounds of `{z[:80]}` are not constants")
     T = max(abs(lo), abs(hi))
-    # sd = sqrt(V)[newaxis] -> V
     inner = sd
     while nf.meta.get(inner, {}).get("fn") == "subscript" and nf.meta[inner].get("args"):
         nxt = nf.meta[inner]["args"][0].single_atom()
@@ -110,41 +101,75 @@ def _cem_sample(ck, repo, nf, CS):
         inner = nxt
     im = nf.meta.get(inner, {})
     is_sqrt = (im.get("fn") == "sqrt" and im.get("args")) or (im.get("fn") == "pow" and len(im.get("args", [])) == 2 and im["args"][1].canon() == "1/2")
-    if not is_sqrt:
-        raise AnalysisError(f"{CS}: scale factor `{sd[:100]}` is not sqrt(variance) (unrecognised idiom)")
-    V = im["args"][0]
-    va = V.single_atom()
-    leaves = _min_leaves(nf, va) if va else None
-    if leaves is None:
-        ck.ob("R4-cem-proposal", CS, "bounded", False, f"variance = {V.canon()[:120]}", "the variance used for sampling is not limited by the distance to the bounds: candidates can leave [lb, ub]", where)
+    if is_sqrt:
+        V = im["args"][0]
+        va = V.single_atom()
+        leaves = _min_leaves(nf, va) if va else None
+        return ("affine", T, leaves if leaves is not None else [V], True)
+    leaves = _min_leaves(nf, inner)
+    return ("affine", T, leaves if leaves is not None else [Poly.atom(inner)], False)
+
+
+def _cem_sample(ck, repo, nf, CS):
+    """candidates = Z * S + mean with |Z| <= T and S = min(leaves): bounded iff for each bound some leaf is <= c*distance with T*c <= 1;
+    a necessary condition is that S vanishes when the mean sits on the bound (decided by substitution lb := mean resp. ub := mean);
+    or the candidates are an outermost clip(., lb, ub)."""
+    fn = repo.func(CS)
+    mi = fn._module
+    env = _env(fn)
+    where = loc(mi, fn)
+    parts = _cem_parts(nf, CS, env)
+    if parts[0] == "clip":
+        ok = parts[1] in (["lb", "ub"], ["lb[jax.numpy.newaxis]", "ub[jax.numpy.newaxis]"], ["lb[numpy.newaxis]", "ub[numpy.newaxis]"])
+        ck.ob("R4-cem-proposal", CS, "bounded", ok, f"return {parts[2][:120]}", "" if ok else "candidates are clipped to something else than [lb, ub]", where)
         return
+    if parts[0] == "untruncated":
+        ck.ob("R4-cem-proposal", CS, "bounded", False, f"return {parts[1][:140]}", "the perturbation is not drawn from a truncated distribution: candidates are unbounded", where)
+        return
+    _, T, leaves, squared = parts
     sc = Scope(None, mi, env, CS)
-    dl = nf.poly(parse_expr("(mean - lb) ** 2"), sc, None)
-    du = nf.poly(parse_expr("(ub - mean) ** 2"), sc, None)
+    dl = nf.poly(parse_expr("(mean - lb) ** 2" if squared else "mean - lb"), sc, None)
+    du = nf.poly(parse_expr("(ub - mean) ** 2" if squared else "ub - mean"), sc, None)
 
     def coeff(leaf, d):
-        # leaf == k * d  for a rational k ?
-        if not leaf.terms or not d.terms:
+        if not leaf.terms or not d.terms or len(leaf.terms) != len(d.terms):
             return None
         ks = set()
         for m_, c_ in d.terms.items():
             if m_ not in leaf.terms:
                 return None
             ks.add(leaf.terms[m_] / c_)
-        return ks.pop() if len(ks) == 1 and len(leaf.terms) == len(d.terms) else None
+        return ks.pop() if len(ks) == 1 else None
     kl = [k for k in (coeff(l, dl) for l in leaves) if k is not None]
     ku = [k for k in (coeff(l, du) for l in leaves) if k is not None]
-    side = []
-    if not kl:
-        side.append("lower")
-    if not ku:
-        side.append("upper")
-    if side:
-        ck.ob("R4-cem-proposal", CS, "bounded", False, f"variance = min{[l.canon()[:40] for l in leaves]}", f"the sampling variance is not limited by the squared distance to the {' and '.join(side)} bound: candidates can cross it", where)
-        return
-    ok = T * T * float(min(kl)) <= 1.0 + 1e-12 and T * T * float(min(ku)) <= 1.0 + 1e-12
-    ck.ob("R4-cem-proposal", CS, "bounded", ok, f"|Z| <= {T:g}, variance <= {float(min(kl)):g}*(mean-lb)^2 and {float(min(ku)):g}*(ub-mean)^2",
-          "" if ok else f"|Z|*std can reach {T * float(min(min(kl), min(ku))) ** 0.5:.3g} times the distance to a bound (> 1): candidates can leave [lb, ub]", where)
+    lim = (lambda k: T * T * float(k)) if squared else (lambda k: T * float(k))
+    verdicts = []
+    for side, ks, bound in (("lower", kl, "lb"), ("upper", ku, "ub")):
+        if ks:
+            okk = lim(min(ks)) <= 1.0 + 1e-12
+            verdicts.append((side, okk, f"|Z| <= {T:g}, {'variance' if squared else 'std'} <= {float(min(ks)):g}*{'(distance to ' + bound + ')^2' if squared else 'distance to ' + bound}",
+                             "" if okk else f"|Z|*std can reach {(lim(min(ks)) ** 0.5 if squared else lim(min(ks))):.3g} times the distance to the {side} bound (> 1): candidates can cross it"))
+            continue
+        # no recognised cap for this side: necessary condition - with the mean on the bound the std must vanish
+        env2 = dict(env)
+        env2[bound] = env["mean"]
+        try:
+            p2 = _cem_parts(nf, CS, env2)
+        except AnalysisError:
+            # the perturbation term disappeared entirely: std == 0 on the bound, but the interior is not decided
+            raise AnalysisError(f"{CS}: the limit of the sampling std towards the {side} bound has a form this check cannot decide")
+        if p2[0] != "affine":
+            raise AnalysisError(f"{CS}: sampling form changes under {bound} := mean (unrecognised idiom)")
+        l2 = p2[2]
+        cond = any(any(t in a for t in ("where(", "Lt(", "LtE(", "Eq(", "select(", "ite(")) for l in l2 for a in l.atoms())
+        if any(l.is_zero() for l in l2):
+            raise AnalysisError(f"{CS}: the sampling std vanishes on the {side} bound, but its size in the interior ({[l.canon()[:50] for l in leaves]}) is not of the form c*distance: boundedness not decidable here")
+        if cond:
+            raise AnalysisError(f"{CS}: the sampling std is defined by cases ({[l.canon()[:50] for l in l2]}): boundedness not decidable here")
+        verdicts.append((side, False, f"with mean on the {side} bound the std is min{[l.canon()[:60] for l in l2]}",
+                         f"no factor of the sampling std vanishes when the mean lies on the {side} bound: it stays positive there for suitable inputs, so candidates cross the bound"))
+    ok = all(v[1] for v in verdicts)
+    ck.ob("R4-cem-proposal", CS, "bounded", ok, "; ".join(v[2] for v in verdicts), "; ".join(v[3] for v in verdicts if v[3]), where)
 
 
 def run(ck, repo: Repo, tier: str):
